@@ -102,3 +102,100 @@ Print Assumptions C17_summary_flag_refuted.
    reader's modified flags satisfy the hypotheses above (the check compares the model using
    transcriptions of Cmp* with the Go order of records, and tests flag soundness on every
    observed stream); float setters with != (known finding C17-setter-negzero). *)
+
+(* ---- the grouping way back (stefToOtlpSorted): proved for ANY list of records ---- *)
+From Stef Require Import FromStefSortedFacts.
+
+Theorem C17_way_back_by_groups_ : forall cmpR cmpS cmpM cmpA,
+  (forall a b, cmpR a b = Eq -> a = b) -> (forall a b, cmpS a b = Eq -> a = b) ->
+  (forall a b, cmpM a b = Eq -> a = b) -> (forall a b, cmpA a b = Eq -> a = b) ->
+  forall c l pvs, rviews c l pvs ->
+  exists b', from_stef_sorted_gen cmpR cmpS cmpM cmpA c l = Ok b' /\
+             Permutation (flatten b') (concat pvs) /\
+             flatten b' = flat_map (vw c) (regroup cmpR cmpS cmpM cmpA l).
+Proof. exact FromStefSortedFacts.C17_way_back_by_groups. Qed.
+Print Assumptions C17_way_back_by_groups_.
+
+Theorem C17_regroup_perm_ : forall cmpR cmpS cmpM cmpA,
+  (forall a b, cmpR a b = Eq -> a = b) -> (forall a b, cmpS a b = Eq -> a = b) ->
+  (forall a b, cmpM a b = Eq -> a = b) -> (forall a b, cmpA a b = Eq -> a = b) ->
+  forall l, Permutation (regroup cmpR cmpS cmpM cmpA l) l.
+Proof. exact FromStefSortedFacts.C17_regroup_perm. Qed.
+Print Assumptions C17_regroup_perm_.
+
+Theorem C17_way_back_group_order_ : forall cmpR cmpS cmpM cmpA,
+  strict_order cmpR -> strict_order cmpS -> strict_order cmpM -> strict_order cmpA ->
+  forall (f : mrecord -> bool) R0 S0 M0 A0,
+  (forall x, f x = true ->
+     r_resource x = R0 /\ r_scope x = S0 /\ r_metric x = M0 /\ r_attrs x = A0) ->
+  forall l, filter f (regroup cmpR cmpS cmpM cmpA l) = filter f l.
+Proof. exact FromStefSortedFacts.C17_way_back_group_order. Qed.
+Print Assumptions C17_way_back_group_order_.
+
+Theorem C17_way_back_metric_order_refuted_ :
+  exists l R0 S0 M0,
+    Forall (fun x => r_resource x = R0 /\ r_scope x = S0 /\ r_metric x = M0) l /\
+    regroup cmp_resource cmp_scope cmp_metric cmp_tattrs l <> l.
+Proof. exact FromStefSortedFacts.C17_way_back_metric_order_refuted. Qed.
+Print Assumptions C17_way_back_metric_order_refuted_.
+
+Theorem C17_sorted_back_same_list_refuted_ :
+  exists b b' b'', mbatch_wf b = true /\
+    rbind (to_stef_unsorted cfg_repaired b) (from_stef_sorted cfg_repaired) = Ok b' /\
+    flatten b' <> flatten b /\
+    rbind (to_stef_unsorted cfg_repaired b) (from_stef cfg_repaired) = Ok b'' /\
+    flatten b'' = flatten b.
+Proof. exact FromStefSortedFacts.C17_sorted_back_same_list_refuted. Qed.
+Print Assumptions C17_sorted_back_same_list_refuted_.
+
+Theorem C17_sorted_back_one_metric_per_identity_refuted_ :
+  exists b b', mbatch_wf b = true /\
+    rbind (to_stef_unsorted cfg_repaired b) (from_stef_sorted cfg_repaired) = Ok b' /\
+    exists rm sm, In rm b' /\ In sm (rm_scopes rm) /\
+                  ~ NoDup (map fq_of_metric (sm_metrics sm)).
+Proof. exact FromStefSortedFacts.C17_sorted_back_one_metric_per_identity_refuted. Qed.
+Print Assumptions C17_sorted_back_one_metric_per_identity_refuted_.
+
+Theorem C17_roundtrip_unsorted_then_sorted_back_ : forall cmpR cmpS cmpM cmpA,
+  (forall a b, cmpR a b = Eq -> a = b) -> (forall a b, cmpS a b = Eq -> a = b) ->
+  (forall a b, cmpM a b = Eq -> a = b) -> (forall a b, cmpA a b = Eq -> a = b) ->
+  forall c w b recs,
+  c_map_inc c = true -> c_back_ex c = true -> c_summary_flag c = true ->
+  mbatch_wf b = true ->
+  to_stef_unsorted_from c w b = Ok recs ->
+  exists b', from_stef_sorted_gen cmpR cmpS cmpM cmpA c recs = Ok b' /\
+             Permutation (flatten b') (flatten b) /\
+             flatten b = flat_map (vw c) recs /\
+             flatten b' = flat_map (vw c) (regroup cmpR cmpS cmpM cmpA recs).
+Proof. exact FromStefSortedFacts.C17_roundtrip_unsorted_then_sorted_back. Qed.
+Print Assumptions C17_roundtrip_unsorted_then_sorted_back_.
+
+Theorem C17_roundtrip_sorted_then_sorted_back_ :
+  forall cmpM' cmpR' cmpS' cmpA' cmpR cmpS cmpM cmpA,
+  (forall a b, cmpM' a b = Eq -> a = b) -> (forall a b, cmpR' a b = Eq -> a = b) ->
+  (forall a b, cmpS' a b = Eq -> a = b) -> (forall a b, cmpA' a b = Eq -> a = b) ->
+  (forall a b, cmpR a b = Eq -> a = b) -> (forall a b, cmpS a b = Eq -> a = b) ->
+  (forall a b, cmpM a b = Eq -> a = b) -> (forall a b, cmpA a b = Eq -> a = b) ->
+  forall c b recs,
+  c_map_inc c = true -> c_back_ex c = true -> c_summary_flag c = true -> c_keep_empty c = true ->
+  mbatch_wf b = true ->
+  to_stef_sorted_gen cmpM' cmpR' cmpS' cmpA' c b = Ok recs ->
+  exists b', from_stef_sorted_gen cmpR cmpS cmpM cmpA c recs = Ok b' /\
+             Permutation (flatten b') (flatten b).
+Proof. exact FromStefSortedFacts.C17_roundtrip_sorted_then_sorted_back. Qed.
+Print Assumptions C17_roundtrip_sorted_then_sorted_back_.
+
+Theorem C17_way_back_by_groups_ok_iff_ : forall cmpR cmpS cmpM cmpA,
+  (forall a b, cmpR a b = Eq -> a = b) -> (forall a b, cmpS a b = Eq -> a = b) ->
+  (forall a b, cmpM a b = Eq -> a = b) -> (forall a b, cmpA a b = Eq -> a = b) ->
+  forall c l,
+  (exists b', from_stef_sorted_gen cmpR cmpS cmpM cmpA c l = Ok b') <->
+  (exists pvs, rviews c l pvs).
+Proof. exact FromStefSortedFacts.C17_way_back_by_groups_ok_iff. Qed.
+Print Assumptions C17_way_back_by_groups_ok_iff_.
+
+Theorem C17_way_back_tree_strict_ : forall cmpR cmpS cmpM cmpA,
+  strict_order cmpR -> strict_order cmpS -> strict_order cmpM -> strict_order cmpA ->
+  forall l, okT cmpR cmpS cmpM cmpA (fold_left (rtree_insert cmpR cmpS cmpM cmpA) l []).
+Proof. exact FromStefSortedFacts.C17_way_back_tree_strict. Qed.
+Print Assumptions C17_way_back_tree_strict_.
